@@ -1,7 +1,7 @@
 (* C12 — Diagnostics describe the chain that actually runs. *)
 From Coq Require Import List Arith Bool.
 Import ListNotations.
-From NJ Require Import Base Registry Classify Select Reorder Machine Spec Bind Conc ConcProofs Refine Chain.
+From NJ Require Import Base Registry Classify Select Reorder Machine Spec Bind Conc ConcProofs Refine Chain SpecLemmas WfProofs EndToEnd C03.
 
 (* The debug lock protocol (bindFast under the read lock; a failed Bind replayed under the write
    lock with debugging on): for any mix of failing and succeeding Binds and every schedule, as long
@@ -26,6 +26,19 @@ Theorem C12_included_is_what_runs : forall c pl b,
     snd m = snd s /\ ss_w W (fst m) = sq_w W (fst s).
 Proof. exact chain_refines. Qed.
 Print Assumptions C12_included_is_what_runs.
+
+(* End to end, with no hypothesis about the plan (cases without Reorder annotation and init
+   function): whatever is logged during any number of invocations of a bound chain, for any number
+   of inner() calls by its wrappers, is a provider carrying the include mark in the final working
+   list - the marks the Debugging value is filled from.  A provider the report lists as excluded
+   never runs. *)
+Theorem C12_whatever_runs_is_listed_as_included : forall (c : bcase) (pl : plan) (b : bound),
+  plain_case c = true -> bc_init c = None -> bind_chain c = Ok (pl, b) ->
+  forall (ncalls : nat -> nat) (k : nat) (x : nat),
+    In x (ss_w (list nat) (fst (run_session (list nat) o_fn (o_wrap ncalls) b (mkSess (list nat) [] (bd_base0 b) false true) (repeat DoInvoke k)))) ->
+    In x (map p_pid (filter p_include (pl_funcs pl))).
+Proof. exact C03_only_included_providers_run. Qed.
+Print Assumptions C12_whatever_runs_is_listed_as_included.
 
 Example C12_nonvacuous :
   let s := run dstate dstep [0;1;0;1;0;1;0;0;0;1;1;1;1;1] (dinit [true; false]) in
